@@ -44,6 +44,9 @@ def check(run, prog, tier):
                       "as the first; the weight of a molecule in an exciton is read from the rows of the states in which that "
                       "molecule is excited", minimum=2)
     rule_J(run, prog)
+    run.rule("C11-K", "resonance couplings are computed in floating point whatever number type the positions and dipoles were "
+                      "given in: no in-place division or scaling of a value that has the element type of the inputs", minimum=3)
+    rule_K(run, prog)
     run.rule("C11-A", "eigenbasis transformations in the aggregate calculation are undone", minimum=4)
     run.rule("C11-B", "half-sided transform is laid on the returned grid", minimum=10)
     run.rule("C11-C", "dipoles enter through scalar products only", minimum=3)
@@ -332,6 +335,39 @@ def rule_D(run, prog):
         run.obligation(rid, f.short, ok, key="prefactor",
                        message="the frequency prefactor must multiply the data exactly when raw is false, before "
                                "the spectrum object is created on the same axis", loc=f.loc(), sample={"site": f.short})
+
+
+def rule_K(run, prog):
+    """'... line positions correspond to the Hamiltonian of the specified geometry; the spectrum is unchanged by a common
+    rotation of all dipoles and positions': the couplings come from builders/interactions.py, fed with the positions and
+    dipoles as the user typed them (Molecule.position keeps the element type: [6, 1, 0] is an integer array; a rotated
+    copy is floating point).  `R = r1 - r2` has the inputs' type, and `R /= |R|` in place cannot be stored in an integer
+    array: numpy raises, set_coupling_by_dipole_dipole and calculate_resonance_coupling turn every exception into a zero
+    coupling, and the aggregate on a whole-number lattice silently loses its couplings while the rotated one keeps them.
+    In the coupling functions an in-place true division (or in-place scaling by a float) must not act on a value that
+    inherits the element type of the parameters."""
+    from .. import arrays
+    rid = "C11-K"
+    n = 0
+    funcs = [f for f in prog.all_functions() if f.qualname.startswith("quantarhei.builders.interactions.")]
+    ab = prog.cls("quantarhei.builders.aggregate_base.AggregateBase")
+    funcs += [ab.methods[m_] for m_ in ("dipole_dipole_coupling", "set_coupling_by_dipole_dipole", "calculate_resonance_coupling")
+              if m_ in ab.methods]
+    for f in funcs:
+        if not hasattr(f.node, "args"):
+            continue
+        n += 1
+        prog.consulted.add(f.relpath)
+        bad, _ = arrays.inplace_on_inherited_dtype(f.node)
+        run.obligation(rid, f.short, not bad, key="no-inplace-float-op-on-input-typed",
+                       message="%s applies `%s` in place to `%s`, which has the element type of the function's arguments (%s): for "
+                               "positions or dipoles given as whole numbers numpy refuses to store the quotient in the integer "
+                               "array, the callers that set all couplings swallow the exception and store a zero coupling - the "
+                               "spectrum of the geometry as typed differs from that of its rotated copy"
+                               % (f.short, norm(bad[0][0]) if bad else "", bad[0][1] if bad else "", bad[0][2] if bad else ""),
+                       loc=f.loc(bad[0][0]) if bad else f.loc(f.node))
+    if n < 3:
+        raise AnalysisError("C11-K: only %d coupling functions found" % n)
 
 
 def rule_J(run, prog):
